@@ -39,7 +39,7 @@ Record frule := { fr_lhs : elabel; fr_nodes : list (nat * nat);   (* (id, node l
 Definition ftd := list (list nat * list nat).
 
 Definition fr_ids (r : frule) : list nat := map fst (fr_nodes r).
-(** [v.label]; the default is unreachable for a node of the rule ([Fz_wf.nlabel_In]) *)
+(** [v.label]; the default is unreachable for a node of the rule (Proofs/Fz_inline.v: [nlabel_In]) *)
 Fixpoint nlabel (ns : list (nat * nat)) (v : nat) : nat :=
   match ns with
   | [] => 0
